@@ -1056,6 +1056,16 @@ func (env *Env) elabCall(x *ECall) SV {
 		v.ty = f.ty
 		return v
 	}
+	if f.kind != "fn" && f.ty != nil {
+		// application of a value of a named pure function type
+		if sym, rt := env.tr.dynPureSym(f.ty); sym != "" {
+			args := []Term{f.t}
+			for _, a := range x.Args {
+				args = append(args, env.elab(a).t)
+			}
+			return env.goSV(app(sym, args...), rt)
+		}
+	}
 	if f.kind != "fn" || f.fn == nil {
 		return env.fail("%s is not callable in a specification", x.Fn.String())
 	}
